@@ -459,6 +459,27 @@ pub fn run(args: &Args, out: &mut dyn Write) -> Stats {
             }
         }
     }
+    if thorough {
+        // every code x every length 0..48 x two contents
+        for code in 0..=255u8 {
+            for len in 0..=48usize {
+                st.bump("dhcpopt.sys.code-x-len2");
+                emit(out, case_decode(code, &content(&mut r, len, 3)));
+                emit(out, case_decode(code, &content(&mut r, len, 5)));
+            }
+        }
+        // option 121: every prefix length x every address pattern x every number of octets behind
+        for plen in 0..=255u8 {
+            for follow in 0..=9usize {
+                for a in [0u8, 0x80, 0xff, 0x01] {
+                    st.bump("dhcpopt.sys.routes2");
+                    let mut v = vec![plen];
+                    v.extend(std::iter::repeat(a).take(follow));
+                    emit(out, case_decode(121, &v));
+                }
+            }
+        }
+    }
     // every integer-typed option with every length 0..17 and all-ones octets (the folds `(acc << 8) + v`)
     for code in [2u8, 21, 24, 26, 35, 37, 38, 51, 57, 58, 59, 108, 23, 19] {
         for len in 0..=17usize {
